@@ -14,12 +14,17 @@ var c19Programs = []string{
 	"var x = 1001\nprint x < 1002 and \"lt\" or \"ge\"\ndef b \"n\" {\n f = x\n def c {\n g = f + 1002\n}\n}\nbind b -> struct\n",
 	"print \"a\"\nprint 1001 / 1002\nprint \"b\"\n",
 	"def t {\n f = 1001\n}\ndef t {\n f = 1002\n}\nbind t:first -> slice\nbind t:last -> struct\nprint \"done\"\n",
-	"print 1 +\n",                           // rejected
-	"print y\n",                             // rejected (undefined)
-	"def t {\n g = y\n}\n",                   // runtime error
-	"print \"x\" - 1\n",                      // runtime error
+	"print 1 +\n",          // rejected
+	"print y\n",            // rejected (undefined)
+	"def t {\n g = y\n}\n", // runtime error
+	"print \"x\" - 1\n",    // runtime error
 	"var a = 1001 or 1002\nvar b = a and 1003\nprint \"r\"\neval a = b\n",
 	"",
+	"print \"a\"\nprint 1001 / 1002\n", // runtime error raised by the last token of the last line
+	"print 1001 / 1002",                // the same without a final newline
+	"def t {\n}\nbind t -> struct\nbind t -> struct\n",              // warning from the last line
+	"def a {\n def b {\n }\n var x = b\n var y = b\n f = 1001\n}\n", // block values in adjacent stack slots
+	"def a {\n def b {\n }\n var x = b\n eval x == b\n}\n",          // runtime error on block operands
 }
 
 // introspection lines: stack dumps, instruction lines, statistics, header
